@@ -374,6 +374,26 @@ class SeqCheck {
       MasterSymbolString ms; loadM(&ms, e.m);
       SlaveSymbolString ss; loadS(&ss, e.s);
       msg.storeLastData(ms, ss);
+      // the numeric reader (conditions, numeric data sinks) walks the same layout: the raw value of every plain
+      // unsigned / bit field selected by name must be the value that was encoded
+      {
+        vector<string> vals = valuesFor(c);
+        for (size_t i : vis) {
+          string ty = ft(i).type;
+          bool plainInt = ty == "UCH" || ty == "UIN" || ty == "U3N" || ty == "ULG" || (ft(i).bit && ty.find('/') == string::npos && ty.compare(0, 2, "BI") == 0);
+          if (!plainInt) continue;
+          unsigned int raw = 0;
+          string nm = "f" + std::to_string(i);
+          result_t rr = seq[i].part == 'm' ? whole->read(ms, 0, nm.c_str(), -1, &raw) : whole->read(ss, 0, nm.c_str(), -1, &raw);
+          R.transitions++;
+          unsigned long want = strtoul(vals[i].c_str(), nullptr, 10);
+          if (overlapDefs) continue;  // overlapping bit ranges: values are OR-ed together (don't-care)
+          if (rr != RESULT_OK || raw != want) {
+            fail("numeric-read", "numeric read of " + nm + " (" + ty + "." + seq[i].part + ") from m=" + hx(e.m) + " s=" + hx(e.s) + " gives " + (rr != RESULT_OK ? string(getResultCode(rr)) : std::to_string(raw)) + ", encoded value " + vals[i]);
+            return;
+          }
+        }
+      }
       for (OutputFormat fmt : fmts) {
         for (size_t k = 0; k <= order.size(); k++) {
           for (int byName = 0; byName < 2; byName++) {
